@@ -79,10 +79,23 @@ def flowSpec {σ} [DecidableEq σ] (segs : List Bytes) (single : Out σ) (outs :
         let later := segs.drop (k + 1)
         match single with
         | .sig s =>
-          if later.any startsRecord then
-            some (outs.take (k + 1) == List.replicate k Out.none ++ [Out.sig s])
-          else
-            some (outs == List.replicate k Out.none ++ [Out.sig s] ++ List.replicate (segs.length - k - 1) Out.none)
+          -- exactly one result for the connection: nothing before the completing segment, the result on
+          -- it, nothing afterwards — whatever the bytes after the record look like (see `laterRecord`)
+          some (outs == List.replicate k Out.none ++ [Out.sig s] ++ List.replicate (segs.length - k - 1) Out.none)
         | _ => some (allNone (outs.take k) && !(isSig (outs.getD k Out.none)))
+
+/-- Known-finding class `KF.C08.laterRecordReported`: after the ClientHello record is complete, a later
+segment of the same flow itself starts a handshake record. The packet-level analyzer drops the flow on
+success, so such a segment opens a NEW flow and, if it carries (or begins) a ClientHello, the connection
+gets a second result. -/
+def laterRecord (segs : List Bytes) : Bool :=
+  match segs with
+  | [] => false
+  | s0 :: _ =>
+    startsRecord s0 &&
+      (let whole := segs.flatten
+       let n := recordLen whole
+       decide (n ≤ whole.length) && decide (n ≤ 65536) &&
+         (segs.drop (completionIdx n segs + 1)).any startsRecord)
 
 end Huginn.Tls.Spec
